@@ -14,6 +14,15 @@ LEDGER_NOTE = ("Trusted: TLC, JSON bridge, the harness's read-only projection th
                "methods are not generated yet.")
 
 CHECKS = {
+    "C16": (
+        "MkvsWire.tla (transcribed storage decoders as a byte-level parser) generates every small encoding with every single "
+        "structural mutation; cases and seeded mutation neighbourhoods are fed to the real decoders/verifiers under panic, "
+        "deadline and allocation guards; hostile transaction bytes are delivered to live multiplexers",
+        "Grammar-derived exhaustive boundary cases (TLC) plus seeded random neighbourhoods on ten decode/verify entry points; "
+        "accept/reject of node.UnmarshalBinary is compared with the transcription (drift), every entry point must terminate "
+        "without panic, hang or allocation blow-up.",
+        "Decides the property on generated inputs only; no coverage-guided fuzzing of the CBOR library, AVR/IAS parsing or the "
+        "runtime-host protocol. Trusted: TLC, JSON bridge.", "DESIGN.md 4 C16"),
     "C17": (
         "Registry.tla (admission check + key-index update of node registration) checked by TLC; one behaviour per distinct "
         "(pre-state, operation) pair replayed on the real registry application; K1-K5/A1 evaluated by TLC (TraceRegistry.tla) on "
